@@ -8,12 +8,13 @@
 //	                       `reset` line on; thread 0 replays the whole case, the others stop 1, 2, ... ops earlier, so
 //	                       the trees hold the same ids at different stages). The threads are interleaved
 //	                       DETERMINISTICALLY: every certificate of a thread's tree is wrapped (yqc) so that each call of
-//	                       GetProposalId made by the code under verification - one per node visited by DFSQuery, per
-//	                       parent lookup, per orphan scan - is a yield point at which a scheduler seeded with <seed>
+//	                       GetProposalId / GetParentProposalId / GetProposalView made by the code under verification -
+//	                       one per node visited by DFSQuery, per parent lookup, per orphan scan, per view comparison -
+//	                       is a yield point at which a scheduler seeded with <seed>
 //	                       passes control to another thread (one thread runs at a time; same line => same schedule).
 //	                       -> ok <final dump of thread 0> | <final dump of thread 1> | ...
-//	conc <k> <seed> free   the same threads as free-running goroutines (yield point = runtime.Gosched with probability
-//	                       1/2): real parallelism; the answer is compared with the model like the scheduled one (the
+//	conc <k> <seed> free   the same threads as free-running goroutines (every second yield point = runtime.Gosched; each
+//	                       thread builds its tree 30 times over so that the goroutines overlap): real parallelism; the answer is compared with the model like the scheduled one (the
 //	                       sequential answers do not depend on the schedule), a failure may need several replays.
 //
 // Sequential meaning (Lean driver): the trees are independent, so every thread ends exactly where the sequential run of
@@ -43,7 +44,8 @@ type thread struct {
 	done   bool
 	active bool // inside an operation of the code under verification: yield points are live
 	lines  []string
-	ans    []string
+	seq    []string // the answers the real code gave to these lines when the case ran alone
+	diff   string   // first answer that differs from seq
 	vs     []viol
 	final  string
 }
@@ -67,7 +69,7 @@ type yqc struct {
 
 // The yield belongs to the thread that is RUNNING (the token holder), not to the owner of the node: code that has been
 // led into another tree's nodes must not be mistaken for that tree's thread.
-func (q *yqc) GetProposalId() []byte {
+func (q *yqc) yieldPoint() {
 	if s := q.th.s; s.free {
 		if atomic.AddUint64(&s.ctr, 1)%2 == 0 {
 			runtime.Gosched()
@@ -75,7 +77,22 @@ func (q *yqc) GetProposalId() []byte {
 	} else if t := s.cur; t != nil && t.active {
 		t.yield()
 	}
+}
+
+func (q *yqc) GetProposalId() []byte {
+	q.yieldPoint()
 	return q.QuorumCert.GetProposalId()
+}
+
+// the other reads the tree code makes of a stored certificate (parent lookups, view comparisons) are yield points too
+func (q *yqc) GetParentProposalId() []byte {
+	q.yieldPoint()
+	return q.QuorumCert.GetParentProposalId()
+}
+
+func (q *yqc) GetProposalView() int64 {
+	q.yieldPoint()
+	return q.QuorumCert.GetProposalView()
 }
 
 func (x *world) wrap(n *bft.ProposalNode) {
@@ -139,26 +156,42 @@ func (t *thread) finish() {
 }
 
 func (t *thread) body() {
-	var x *world
 	defer func() {
 		if r := recover(); r != nil {
 			t.vs = append(t.vs, viol{"structure-unwalkable", fmt.Sprintf("thread %d panicked outside an operation: %v", t.id, r)})
 			t.final = "panic"
 		}
 	}()
-	for _, l := range t.lines {
-		var a string
-		var vs []viol
-		x, a, vs = stepW(x, t, l)
-		t.ans = append(t.ans, a)
-		t.vs = append(t.vs, vs...)
+	// free-running threads are through in microseconds: each builds its tree freeReps times so that the goroutines overlap
+	reps := 1
+	if t.s.free {
+		reps = freeReps
 	}
-	if x == nil || x.tree == nil {
-		t.final = "no-tree"
-		return
+	for rep := 0; rep < reps; rep++ {
+		var x *world
+		for j, l := range t.lines {
+			var a string
+			var vs []viol
+			x, a, vs = stepW(x, t, l)
+			if t.diff == "" && j < len(t.seq) && a != t.seq[j] {
+				t.diff = fmt.Sprintf("answers `%s` to op %d `%s`; the same ops alone gave `%s`", a, j+1, l, t.seq[j])
+			}
+			t.vs = append(t.vs, vs...)
+		}
+		if x == nil || x.tree == nil {
+			t.final = "no-tree"
+			return
+		}
+		if d := takeSnap(x).dump(); rep == 0 || d != t.final {
+			if rep > 0 && t.diff == "" {
+				t.diff = fmt.Sprintf("ends with `%s` in one run and with `%s` in another", t.final, d)
+			}
+			t.final = d
+		}
 	}
-	t.final = takeSnap(x).dump()
 }
+
+const freeReps = 30
 
 // stepConc executes `conc <k> <seed> [free]` on the case held in the global w.
 func stepConc(f []string) (ans string, vs []viol) {
@@ -185,7 +218,7 @@ func stepConc(f []string) (ans string, vs []viol) {
 		if n < 1 {
 			n = 1
 		}
-		s.threads = append(s.threads, &thread{id: i, s: s, wake: make(chan struct{}, 1), lines: hist[:n]})
+		s.threads = append(s.threads, &thread{id: i, s: s, wake: make(chan struct{}, 1), lines: hist[:n], seq: seq})
 	}
 	if s.free {
 		var wg sync.WaitGroup
@@ -225,15 +258,9 @@ func stepConc(f []string) (ans string, vs []viol) {
 				vs = append(vs, viol{key, fmt.Sprintf("tree of thread %d (ops 1..%d of the case, %d other trees driven at the same time): %s", t.id, len(t.lines), k-1, v.what)})
 			}
 		}
-		for j, a := range t.ans {
-			if j < len(seq) && a != seq[j] && !seen["conc:differs-from-sequential"] {
-				seen["conc:differs-from-sequential"] = true
-				vs = append(vs, viol{"conc:differs-from-sequential", fmt.Sprintf("tree of thread %d, driven while %d independent trees were driven too, answers `%s` to op %d `%s`; the same ops alone gave `%s`", t.id, k-1, a, j+1, t.lines[j], seq[j])})
-			}
-		}
-		if len(t.ans) != len(t.lines) && !seen["conc:differs-from-sequential"] {
+		if t.diff != "" && !seen["conc:differs-from-sequential"] {
 			seen["conc:differs-from-sequential"] = true
-			vs = append(vs, viol{"conc:differs-from-sequential", fmt.Sprintf("thread %d executed %d of its %d ops", t.id, len(t.ans), len(t.lines))})
+			vs = append(vs, viol{"conc:differs-from-sequential", fmt.Sprintf("tree of thread %d, driven while %d independent trees were driven too, %s", t.id, k-1, t.diff)})
 		}
 	}
 	return "ok " + strings.Join(finals, " | "), vs
